@@ -120,7 +120,12 @@ impl Next<f64> for RelativeStrengthIndex {
         self.prev_val = input;
         let up_ema = self.up_ema_indicator.next(up);
         let down_ema = self.down_ema_indicator.next(down);
-        100.0 * up_ema / (up_ema + down_ema)
+        let total = up_ema + down_ema;
+        if total == 0.0 {
+            // neither gains nor losses left in the averages (flat prices)
+            return 50.0;
+        }
+        100.0 * up_ema / total
     }
 }
 
